@@ -117,3 +117,52 @@ check(
     ),
     assumptions=["city/lz4/zstd third-party implementations are correct"],
 )
+
+check(
+    "C17", "protocol messages symmetric at every revision", "exploration",
+    rule=("rapid draws a message of one of 10 kinds (ClientHello, ServerHello, Query with ClientInfo/settings/parameters/"
+          "trace context, ClientData, block header + BlockInfo, Progress, Profile, Exception, TableColumns) with boundary-biased "
+          "field values; every message is then checked at EVERY revision of the tier's revision set (quick: T-1, T, T+1 of all "
+          "23 thresholds + interval midpoints + 50000/54500/60000 = ~75 revisions; thorough: literally every revision "
+          "50000..54500). evaluations counts messages; class counters count message x revision pairs. Distinct = hash of "
+          "the message. Every message is non-trivial by construction (all have gated or boundary fields); the counter "
+          "adjacent-to-threshold counts pairs within 1 of a threshold gating that message."),
+    quick=[unit("codec", "^TestC17", checks=3000, timeout=900)],
+    thorough=[unit("codec", "^TestC17", checks=2500, timeout=6000, shards=16)],
+    manifest=dict(
+        text="For every generated message and every revision of the set: byte-for-byte equality with an independent reference "
+             "encoder that carries its own threshold table (pins 'present from exactly that revision on'), decode(encode(x)) "
+             "== x projected onto the fields existing at that revision, exact consumption (sentinel tail), and the library "
+             "decodes the reference encoding. Exhaustive over revisions in the thorough tier.",
+        design_ref="DESIGN.md 4 C17",
+        note="Query decoding is exercised for revisions >= 54429 only (below, the documented refusal is asserted). "
+             "ClientInfo.Interface is TCP only (documented). Known finding F19 (Stage) tolerated by signature.",
+        technique="property-based testing (rapid) x exhaustive revision sweep against a reference encoder",
+    ),
+    assumptions=["the harness threshold table (src/Core/ProtocolDefines.h values) is right"],
+)
+
+check(
+    "C19", "type inference total and sound; compatibility symmetric", "exploration",
+    rule=("rapid draws type strings from a grammar (all scalars with legal parameters - FixedString(N), DateTime('tz'), "
+          "DateTime64(p[,'tz']), Enum8/16 definitions, Decimal(P,S), DecimalN(S), Interval*, Point, Nothing, JSON - composed to "
+          "depth 4 through Array/Nullable/LowCardinality/Map/Tuple, with and without spaces after commas) and malformed strings "
+          "(nesting depth to 2000, unbalanced/empty parentheses, bad parameters, unknown bases, arbitrary bytes, single-edit "
+          "mutations of valid strings). For every well-formed type that Infer accepts, random data of that type is encoded by "
+          "the reference codec and decoded through Results.Auto(), values read back by reflection. Pairs for the relation: "
+          "random, (a, single edit of a), documented equivalences wrapped to depth 3, different bases. Distinct = hash of the "
+          "string / pair. Non-trivial = composite, parameterised or malformed string; a pair with a != b."),
+    quick=[unit("codec", "^TestC19", checks=30000, timeout=900)],
+    thorough=[unit("codec", "^TestC19", checks=1000000, timeout=6000, shards=16)],
+    manifest=dict(
+        text="Generated-input search over a type-string grammar plus hostile strings; oracles: no panic, reported type "
+             "compatible with the request, decode-soundness against reference-encoded data, reflexivity and symmetry of "
+             "Conflicts on all strings, documented equivalences compatible, different bases conflicting; the repository's own "
+             "must-infer list is enumerated.",
+        design_ref="DESIGN.md 4 C19",
+        note="Types Infer rejects with an error are allowed by the statement. The inner column's Type() is not compared for "
+             "the DecimalN(S) alias spellings (never printed by a server); counted as excluded in evidence.",
+        technique="grammar-based property testing (rapid) with reference-encoded data as decode oracle",
+    ),
+    assumptions=["reference type parser and codec are correct"],
+)
